@@ -428,3 +428,30 @@ def c10_4(ctx: Ctx) -> RuleResult:
     res.add(f, checks[0] if checks else f.node, "finite lower and upper bounds of the relative variables are required before scaling", ok,
             "" if ok else "relative magnitudes can be computed from infinite bounds (inf/NaN magnitudes)", construct=f"{f.name}: finite bounds check")
     return res
+
+
+@rule(P)
+def c10_5(ctx: Ctx) -> RuleResult:
+    """The transform hooks that map magnitudes / variables / bounds between the domains are pure: GradientConfig hands
+    `magnitudes_to_optimizer` the array that already holds the relative magnitudes and copies only the absolute entries
+    back, so an in-place division scales the relative ones a second time (EFFECT rule, one obligation per method)."""
+    from .common import param_mutations
+
+    res = RuleResult("C10.5", "EFFECT", "transform methods never modify the arrays they are given (magnitudes, variables, bounds are mapped out of place)")
+    n = 0
+    for f in ctx.repo.all_funcs():
+        if not f.module.name.startswith("ropt.transforms") or f.cls is None or isinstance(f.node, ast.Lambda):
+            continue
+        if not f.params or len(f.params) < 2 or f.name.startswith("__"):
+            continue
+        n += 1
+        muts = param_mutations(ctx, f)
+        ok = not muts
+        res.add(f, muts[0][0] if muts else f.node, f"`{f.cls.name}.{f.name}` leaves its array arguments untouched", ok,
+                "" if ok else f"parameter `{muts[0][1]}`: {muts[0][2]}: the caller's array changes under it (GradientConfig.fix_perturbations keeps using the array it passed in: "
+                "relative magnitudes are divided by the scales twice)",
+                construct=f"{f.cls.name}.{f.name}: pure")
+    if n == 0:
+        raise AnalysisError("no transform methods found under ropt.transforms")
+    res.floor = 6
+    return res
